@@ -280,10 +280,16 @@ impl FromStr for PartialDSym {
             Err("size must be at least 1".into())
         } else if spec.dim < 1 {
             Err("dimension must be at least 1".into())
-        } else if spec.op_spec.len() != spec.dim as usize + 1 {
+        } else if Some(spec.op_spec.len()) != spec.dim.checked_add(1) {
             Err("incorrect dimension for op specifications".into())
-        } else if spec.m_spec.len() != spec.dim as usize {
+        } else if spec.m_spec.len() != spec.dim {
             Err("incorrect dimension for degree specifications".into())
+        } else if spec.op_spec.iter()
+            .any(|op_i| op_i.len() < spec.size.div_ceil(2))
+        {
+            // an entry assigns at most two chambers; checked before the
+            // table of size * (dim + 1) entries is allocated
+            Err("incomplete op spec".into())
         } else {
             let mut dset = PartialDSet::new(spec.size, spec.dim);
 
@@ -295,6 +301,12 @@ impl FromStr for PartialDSym {
                     if dset.op_unchecked(i, d) == 0 {
                         let &di = op_i.get(k)
                             .ok_or("incomplete op spec".to_string())?;
+                        if di < 1 || di > spec.size {
+                            return Err("op image out of range".into());
+                        }
+                        if dset.op_unchecked(i, di) != 0 {
+                            return Err("inconsistent op spec".into());
+                        }
                         dset.set(i, d, di);
                         k += 1;
                     }
